@@ -132,6 +132,15 @@ Theorem C17_set_window_spec (ops : list (op S)) (w : Z) :
   else r = (st, false).
 Proof. exact (set_window_spec S lin circ ops w). Qed.
 
+(* move construction / move assignment: the target IS the source state (so everything above transfers);
+   the moved-from object has window 0, outside [2,30]: using it is out of scope *)
+Theorem C17_move_target_is_source (st : est S) : fst (est_move S st) = st.
+Proof. exact (est_move_target S st). Qed.
+
+Theorem C17_moved_from_out_of_scope (st : est S) :
+  window (hb (snd (est_move S st))) = 0%nat /\ ~ hinv (hb (snd (est_move S st))).
+Proof. exact (est_moved_from S st). Qed.
+
 (* the stored estimates are the most recent pushed base estimates (ghost trace since the last clear) *)
 Theorem C17_history_is_recent_calls (ops : list (op S)) :
   let r := trace S lin circ init ops [] in
@@ -189,12 +198,17 @@ Section C17_real.
 Variables lin circ : nat.
 Notation meanR := (mean ROps lin circ).
 
-(* linear rows: sum_i exp(lw_i) x_i; for normalised weights the weighted arithmetic mean, inside the hull *)
+(* linear rows: sum_i exp(lw_i) x_i.  For normalised weights this is the weighted average
+   sum_i w_i x_i / sum_i w_i, and a coordinate that is the same for every particle is returned unchanged *)
 Theorem C17_mean_linear ps lw r : (r < lin)%nat ->
   nth r (meanR ps lw) 0 = rdot (prow ROps r ps) (map exp lw) /\
   (rsum (map exp lw) = 1 ->
-     nth r (meanR ps lw) 0 = rdot (prow ROps r ps) (map exp lw) / rsum (map exp lw)).
-Proof. intros Hr. exact (conj (mean_linear lin circ ps lw r Hr) (mean_linear_normalised lin circ ps lw r Hr)). Qed.
+     nth r (meanR ps lw) 0 = rdot (prow ROps r ps) (map exp lw) / rsum (map exp lw) /\
+     (forall c, length lw = length ps -> Forall (fun p => nth r p 0 = c) ps -> nth r (meanR ps lw) 0 = c)).
+Proof.
+  intros Hr. exact (conj (mean_linear lin circ ps lw r Hr) (fun Hs => conj (mean_linear_normalised lin circ ps lw r Hr Hs)
+    (fun c Hl Hc => mean_linear_const lin circ ps lw r c Hr Hl Hs Hc))).
+Qed.
 
 Theorem C17_mean_linear_in_hull ps lw r lo hi : (r < lin)%nat -> length lw = length ps ->
   rsum (map exp lw) = 1 -> Forall (fun p => lo <= nth r p 0 <= hi) ps ->
@@ -207,6 +221,17 @@ Theorem C17_mean_circular ps lw r : (lin <= r < lin + circ)%nat ->
   if Nat.eqb (length ps) 1 then nth r (nth 0 ps []) 0
   else atan2 (rdot (map sin (prow ROps r ps)) (map exp lw)) (rdot (map cos (prow ROps r ps)) (map exp lw)).
 Proof. exact (mean_circular lin circ ps lw r). Qed.
+
+(* circular rows live on the circle: in (-PI, PI] unless there is exactly ONE particle, whose angle is returned
+   as it is (directional_mean's single-column branch) — congruent modulo 2 PI to its directional mean *)
+Theorem C17_mean_circular_on_circle ps lw r : (lin <= r < lin + circ)%nat ->
+  let x := nth r (meanR ps lw) 0 in
+  (length ps <> 1%nat -> - PI < x <= PI) /\
+  (forall p l, ps = [p] -> lw = [l] ->
+     x = nth r p 0 /\
+     exists k : Z, atan2 (rdot (map sin (prow ROps r ps)) (map exp lw)) (rdot (map cos (prow ROps r ps)) (map exp lw))
+                   = x + 2 * IZR k * PI).
+Proof. exact (mean_circular_on_circle lin circ ps lw r). Qed.
 
 Theorem C17_mean_size ps lw : length (meanR ps lw) = (lin + circ)%nat.
 Proof. exact (mean_length lin circ ps lw). Qed.
@@ -309,6 +334,21 @@ Theorem C17_windowed_extract_end_to_end (lin circ : nat) (ops : list (op ROps)) 
                              else atan2 (rdot (map sin (prow ROps k H)) W) (rdot (map cos (prow ROps k H)) W)).
 Proof. exact (extract_windowed_rows lin circ ops o v e). Qed.
 
+(* windowed circular output: in (-PI, PI] when at least two estimates are stored; with exactly ONE stored estimate
+   (first windowed call after construction / clear) it is that estimate's angle, unwrapped but congruent mod 2 PI *)
+Theorem C17_windowed_circular_on_circle (lin circ : nat) (ops : list (op ROps)) (o : op ROps) v e :
+  let st := run ROps lin circ (est_init ROps) ops in
+  match o with OExtract2 _ _ | OExtract5 _ _ _ _ _ => True | _ => False end ->
+  meth_win (meth st) = Some v -> pushed ROps lin circ st o = Some e ->
+  let r := step ROps lin circ st o in
+  let n := length (buf (hb (fst r))) in
+  forall k, (lin <= k < lin + circ)%nat ->
+    (n <> 1%nat -> - PI < nth k (snd (snd r)) 0 <= PI) /\
+    (n = 1%nat -> nth k (snd (snd r)) 0 = nth k e 0 /\
+                  exists z : Z, atan2 (rdot (map sin [nth k e 0]) [1]) (rdot (map cos [nth k e 0]) [1])
+                                = nth k (snd (snd r)) 0 + 2 * IZR z * PI).
+Proof. exact (windowed_circular_on_circle lin circ ops o v e). Qed.
+
 (* the weighted variant in closed form: 2(n-i)/(n(n+1)) *)
 Theorem C17_weighted_closed_form (n i : nat) : (1 <= n)%nat -> (i < n)%nat ->
   nth i (map exp (win_weights ROps Wweighted n)) 0 = 2 * INR (n - i) / (INR n * (INR n + 1)).
@@ -338,6 +378,8 @@ Print Assumptions C17_extract_value.
 Print Assumptions C17_map_without_args_unavailable.
 Print Assumptions C17_extract5_nonmap_delegates.
 Print Assumptions C17_set_window_spec.
+Print Assumptions C17_move_target_is_source.
+Print Assumptions C17_moved_from_out_of_scope.
 Print Assumptions C17_history_is_recent_calls.
 Print Assumptions C17_stored_count.
 Print Assumptions C17_stored_fixed_window.
@@ -345,6 +387,7 @@ Print Assumptions C17_min_calls_window_refuted.
 Print Assumptions C17_mean_linear.
 Print Assumptions C17_mean_linear_in_hull.
 Print Assumptions C17_mean_circular.
+Print Assumptions C17_mean_circular_on_circle.
 Print Assumptions C17_mean_size.
 Print Assumptions C17_circular_mean_is_resultant_direction.
 Print Assumptions C17_mode_is_max.
@@ -354,5 +397,6 @@ Print Assumptions C17_window_weights.
 Print Assumptions C17_window_weights_closed_form.
 Print Assumptions C17_windowed_is_convex_combination.
 Print Assumptions C17_windowed_extract_end_to_end.
+Print Assumptions C17_windowed_circular_on_circle.
 Print Assumptions C17_weighted_closed_form.
 Print Assumptions C17_convex_combination_in_hull.
